@@ -164,3 +164,7 @@ class Window:
 
 def wild_text(w: dict) -> str:
     return f"{bits_ip(w['base'])} {bits_ip(w['mask'])}"
+
+
+def unlimbs_base(l, base) -> int:
+    return l[0] * base + l[1]
